@@ -91,7 +91,16 @@ fn text_of_first_token(node: &SyntaxNode) -> TokenText<'_> {
 
 impl ast::AssignmentStmt {
     pub fn identifier(&self) -> Option<ast::Identifier> {
-        support::child(&self.syntax)
+        // An identifier on the left-hand side is the first of two child expressions. If the
+        // target is an indexed identifier, then the only child expression is the right-hand
+        // side, which must not be mistaken for the target.
+        let mut children: ast::AstChildren<ast::Expr> = support::children(self.syntax());
+        let expr1 = children.next();
+        let expr2 = children.next();
+        match (expr1, expr2) {
+            (Some(ast::Expr::Identifier(ident)), Some(_)) => Some(ident),
+            _ => None,
+        }
     }
 }
 
